@@ -282,6 +282,16 @@ def r71(e, rep, g, fx, where, argp, seen_cbs):
                 # never established
                 p = dataflow.find_path(g, g.entry, lambda x: x is n)
                 w = dataflow.render_path(p) if p else None
+                # the precondition handed to a helper as DATA (a table of
+                # (condition, refusal) pairs walked by the helper): whether
+                # the callback is reached then depends on values
+                if _passed_as_data(g, p, atom):
+                    rep.unknown('R7.1', where, txt, 'the precondition `%s` '
+                                'is evaluated and handed to a helper as a '
+                                'value; which way the helper goes for it is '
+                                'not read' % atom[1].split('#')[0],
+                                loc=n.loc())
+                    continue
             rep.check(ok, 'R7.1', where, txt,
                       'the %s callback can be reached without the protocol '
                       'precondition `%s%s` holding' % (
@@ -289,6 +299,48 @@ def r71(e, rep, g, fx, where, argp, seen_cbs):
                           atom[1].split('#')[0]),
                       reason='guard dominates the callback', loc=n.loc(),
                       witness=w)
+
+
+def table_guarded(e, g):
+    """the call (if any) that hands a helper a table of (condition, reply)
+    pairs - `self._refused((cond, bad_sequence), (arg, bad_arguments))`: the
+    helper walks data, so which replies are sent and which conditions hold
+    afterwards is not in the shape of the code"""
+    for n in g.nodes:
+        if n.kind not in ('call', 'call_enter'):
+            continue
+        pairs = [a for a in n.ast.args
+                 if isinstance(a, (ast.Tuple, ast.List)) and
+                 len(a.elts) == 2 and isinstance(
+                     a.elts[1], (ast.Name, ast.Attribute)) and
+                 common.reply_constant_code(e, a.elts[1], n.ctx) is not None]
+        if len(pairs) >= 2:
+            return n
+    return None
+
+
+def _passed_as_data(g, path, atom) -> bool:
+    key = atom[1]
+
+    def mentions(x, fr, depth=0):
+        try:
+            if key in canon(x, fr):
+                return True
+        except Exception:
+            pass
+        if depth < 2:
+            for y in ast.walk(x):
+                if isinstance(y, ast.Name):
+                    y2, f2 = common.origin(g, y, fr)
+                    if y2 is not y and mentions(y2, f2, depth + 1):
+                        return True
+        return False
+    for n, _l in path or []:
+        if n.kind in ('call', 'call_enter') and any(
+                isinstance(a, (ast.Tuple, ast.List, ast.Dict)) and
+                mentions(a, n.frame) for a in n.ast.args):
+            return True
+    return False
 
 
 def have_data_reach(e: Engine, rep: Report):
@@ -432,6 +484,14 @@ def r73(e, rep, g, where, name):
         p = dataflow.typestate_witness(
             g, 0, step, lambda n, x: n is g.exit and x in badc)
         w = dataflow.render_path(p) if p else None
+    tg = table_guarded(e, g)
+    if st != frozenset([1]) and tg is not None:
+        rep.unknown('R7.3', where, 'replies per normal path',
+                    'the refusals of this command are sent by a helper that '
+                    'walks a table of (condition, reply) pairs (`%s`): how '
+                    'many replies a path sends depends on values'
+                    % tg.text(50), loc=g.entry.loc())
+        return
     rep.check(st == frozenset([1]), 'R7.3', where,
               'replies per normal path',
               'a normal path through %s sends %s final replies instead of '
@@ -867,6 +927,15 @@ def r76(e: Engine, rep: Report, name: str, where: str):
             rep.ok('R7.6', where, text, loc=n.loc(),
                    reason='only reachable after an earlier use that already '
                    'failed on None')
+            continue
+        tg = table_guarded(e, g)
+        if not ok and tg is not None and any(
+                isinstance(y, ast.Name) and path_of(y, tg.frame) in aliases
+                for a in tg.ast.args for y in ast.walk(a)):
+            rep.unknown('R7.6', where, text, 'the argument is tested inside '
+                        'a table of (condition, reply) pairs handed to a '
+                        'helper (`%s`): whether this use is guarded depends '
+                        'on values' % tg.text(50), loc=n.loc())
             continue
         rep.check(ok, 'R7.6', where, text,
                   'the command argument is None for a bare verb '
